@@ -174,7 +174,7 @@ func parseArg(tok string) (*pb.Arg, error) {
 		}
 		b, _ := json.Marshal(as)
 		return pb.Bytes(b), nil
-	case "ibtp": // ibtp:<from>,<to>,<index>,<type>,<timeout> : marshalled IBTP as a bytes argument
+	case "ibtp", "ibtpc": // ibtp:<from>,<to>,<index>,<type>,<timeout> : marshalled IBTP as a bytes argument (ibtpc: with a Content payload)
 		p := strings.Split(v, ",")
 		if len(p) != 5 {
 			return nil, fmt.Errorf("bad ibtp arg")
@@ -185,7 +185,12 @@ func parseArg(tok string) (*pb.Arg, error) {
 			return nil, fmt.Errorf("bad ibtp type")
 		}
 		to, _ := strconv.ParseInt(p[4], 10, 64)
-		b, err := (&pb.IBTP{From: fullSvc(p[0]), To: fullSvc(p[1]), Index: idx, Type: typ, TimeoutHeight: to}).Marshal()
+		var pl []byte
+		if k == "ibtpc" {
+			ct, _ := (&pb.Content{Func: "interchainCharge", Args: [][]byte{[]byte("a1b2"), []byte("x")}}).Marshal()
+			pl = ct // InterBroker.InvokeInterchain reads the payload as a Content directly
+		}
+		b, err := (&pb.IBTP{From: fullSvc(p[0]), To: fullSvc(p[1]), Index: idx, Type: typ, TimeoutHeight: to, Payload: pl}).Marshal()
 		if err != nil {
 			return nil, err
 		}
